@@ -486,6 +486,16 @@ def seq_get(ex, seq, i):
     idx = norm_index(ex, i, n)
     if seq.k == 'bytes':
         return read_byte(ex, seq.t, idx)
+    t = seq.t
+    if ex.quant and z3.is_app(t) and t.decl().kind() == z3.Z3_OP_SEQ_CONCAT and t.num_args() == 2:
+        last = t.arg(1)
+        if z3.is_app(last) and last.decl().kind() == z3.Z3_OP_SEQ_UNIT:
+            # (init ++ [x])[i] inside a quantifier body (the shape list.append produces): written as the case
+            # distinction i < len(init) ? init[i] : x, which the solvers instantiate directly (equal for every index
+            # in range; the engine's reads are in range or guarded)
+            it = idx if isinstance(idx, z3.ExprRef) else zint(idx)
+            init = t.arg(0)
+            return elem_to_value(ex, z3.If(it < z3.Length(init), init[it], last.arg(0)), seq.k[1])
     return elem_to_value(ex, seq.t[idx], seq.k[1])
 
 
